@@ -1,13 +1,13 @@
 SPECIFICATION GSpec
 VIEW GView
 CONSTANTS
-  Names = {"a", "b"}
-  IntVals <- IV_small
-  Specials = {"none"}
+  Names = {"a", "b", "c"}
+  IntVals <- IV_thorough
+  Specials = {"none", "ref", "zz", "numstr", "floatint", "floatfrac", "bool", "list", "mem"}
   DispNames = {"", "x"}
   MaxPieces = 2
   MaxExt = 1
   MaxDepth = 2
   AsImpl = {}
-  Families = {"look", "conv", "mut", "eqe"}
+  Families = {"build"}
 CHECK_DEADLOCK FALSE
